@@ -410,7 +410,7 @@ pub fn run(ctx: &Ctx) {
     ctx.set_rule(
         "(1) every value of the C06 type family x 24 serializer configurations, and the io-sink entry points (to_utf8_io_writer, \
          Writer::write_serializable) into sinks that accept 1, 2, 3, 7 or all bytes per write call, which must produce the bytes of to_string; (2) per payload position of each family type, every \
-         string up to length 3/4 over {< > & ' \" ] - NUL newline space a}, INCLUDING strings outside the round-trip domain (leading / \
+         string up to length 3/5 over {< > & ' \" ] - NUL newline space a}, INCLUDING strings outside the round-trip domain (leading / \
          trailing blanks, empty list items); (3) out-of-domain cases x the same strings: maps with 18 hostile keys ('' 1a 'a b' a>b \
          p:k @ @a '@a b' @< $text $value xmlns:a < a/ ...), the same pool as root name, as run-time struct field name and struct name, \
          unit variants renamed to markup in attribute / element / $value / $text position, Option without skip, nested sequences, \
@@ -423,7 +423,7 @@ pub fn run(ctx: &Ctx) {
     ctx.assume("skeleton invariance uses a placeholder that keeps blanks and replaces every other character by `a`");
     let t = ctx.tier;
     let level = t.pick(0, 1);
-    let max = t.pick(3, 4);
+    let max = t.pick(3, 5);
     let mut ln = 0;
     macro_rules! go {
         ($($t:ident),*) => { $( sweep_values::<$t>(ctx, ln, level); ln += 1; sweep_family::<$t>(ctx, ln, max); ln += 1; )* };
